@@ -40,7 +40,20 @@ def glist(items):
 
 
 def gzl(l):
-    return glist(gz(int(x)) for x in l)
+    """Z list literal; long runs of one byte are written (app (repeat x (Z.to_nat n)) rest) so that 16-40 KiB elements stay small"""
+    l = [int(x) for x in l]
+    out, i = 'nil', len(l)
+    while i > 0:
+        j = i
+        while j > 0 and l[j - 1] == l[i - 1]:
+            j -= 1
+        if i - j >= 32:
+            out = '(app (repeat %s (Z.to_nat %d)) %s)' % (gz(l[i - 1]), i - j, out)
+            i = j
+        else:
+            out = '(cons %s %s)' % (gz(l[i - 1]), out)
+            i -= 1
+    return out
 
 
 def gtype(t):
